@@ -260,3 +260,16 @@ example : ClockMono (exEnv (fun _ => true) (fun _ => false)) ∧
   | ok s => rw [hr] at hb; exact ⟨s, rfl, by simpa using hb⟩
 
 end Magog.Props.C13Deadline
+
+namespace Magog.Props.C13Deadline
+
+/-- **T1 tie of the clock polls.** The deadline theorems above are about a model that consults its clock oracle in
+    `qLoop`, `abLoop`, `rootLoop` and the deepening loop. These four facts are extracted from the Go source on every
+    run: each of `quiescence`, `alphaBeta`, `startAlphaBeta`, `StartIterativeDeepening` has a loop whose body tests
+    `time.Now().After(deadline)` in an `if` that leaves the loop. If a clock poll disappears from the source the
+    fact flips and this theorem (hence the property's proof module) no longer checks. -/
+theorem clock_polls_present :
+    Gen.clockPoll_quiescence = true ∧ Gen.clockPoll_alphaBeta = true ∧ Gen.clockPoll_startAlphaBeta = true ∧
+      Gen.clockPoll_deepening = true := by decide
+
+end Magog.Props.C13Deadline
